@@ -319,7 +319,7 @@ type VerifNodeAtoms struct {
 func VerifElementAtoms(n *html.Node) VerifNodeAtoms {
 	style := dom.GetAttribute(n, "style")
 	u, m := converter.VerifUnlikely(n)
-	return VerifNodeAtoms{StyleDisplay: domutil.VerifStyleDisplay(style), VisHidden: domutil.VerifVisHidden(style),
+	return VerifNodeAtoms{StyleDisplay: domutil.VerifStyleDisplay(n), VisHidden: domutil.VerifVisHidden(style),
 		Byline: converter.VerifIsByline(n), Unlikely: u, Maybe: m, WithoutContent: converter.VerifWithoutContent(n),
 		Visible: domutil.IsProbablyVisible(n)}
 }
